@@ -112,6 +112,38 @@ def _timefunc(spec):
     raise ValueError(kind)
 
 
+def _dur(d):
+    return 0 if d == '0i' else nsio.t2f(d)
+
+
+def _dur_ticks(d):
+    return 0 if d == '0i' else d
+
+
+def _concat_expected(protos, durs):
+    """What concatenate_sequences is documented to do with these REQUESTED arguments, walking the pieces in
+    order: ValueError when the lengths differ or a specified duration is less than the piece's total_time
+    (whatever the duration's value or type: 0, 0.0, ...), QuantizationStatusError when a piece that has to be
+    shifted is quantized; None = no rejection documented."""
+    sl = _sl()
+    if durs and len(durs) != len(protos):
+        return 'ValueError'
+    cur = 0.0
+    tot = 0.0
+    for i, p in enumerate(protos):
+        if durs and _dur(durs[i]) < p.total_time:
+            return 'ValueError'
+        if cur > 0 and sl.is_quantized_sequence(p):
+            return 'QuantizationStatusError'
+        if durs:
+            cur += _dur(durs[i])
+        else:
+            if p.total_time != 0:
+                tot = cur + p.total_time if cur > 0 else p.total_time
+            cur = tot
+    return None
+
+
 def _call(op, seqs, args):
     """Run the real operation. seqs: list of protos (the arguments). Returns list of result protos (+ extra ints)."""
     sl = _sl()
@@ -153,7 +185,8 @@ def _call(op, seqs, args):
     if op == 'sustain':
         return [sl.apply_sustain_control_changes(s, args[0])], []
     if op == 'concatenate':
-        durs = [nsio.t2f(d) for d in args[0]] if args[0] is not None else None
+        # a duration is in ticks; the marker '0i' is the Python int 0 (t2f(0) is the float 0.0)
+        durs = [_dur(d) for d in args[0]] if args[0] is not None else None
         return [sl.concatenate_sequences(seqs, durs)], []
     if op == 'merge':
         return [sl.merge_sequences(seqs)], []
@@ -492,7 +525,7 @@ def _model_request(case):
     if op == 'sustain':
         return [20, w, args[0]]
     if op == 'concatenate':
-        return [21, ws, list(args[0]) if args[0] else []]
+        return [21, ws, [_dur_ticks(x) for x in args[0]] if args[0] else []]
     if op == 'merge':
         return [22, ws]
     if op == 'repeat':
@@ -625,6 +658,16 @@ def oracle(case, io):
         return {'kind': flags[0], 'op': op, 'status': status, 'flags': flags}
     if status != 'OK' and status not in EXPECTED_EXC.get(op, set()):
         return {'kind': 'undocumented-exception-class', 'op': op, 'status': status}
+    if op == 'concatenate':
+        # documented rejection, derived from the requested arguments only: "ValueError: ... if a specified
+        # duration is less than the total_time of the sequence" — for every value of the duration, 0 included
+        ps = _build(case)
+        if case['input'].get('alias') and ps:
+            ps = [ps[0]] * len(ps)
+        want = _concat_expected(ps, case['input']['args'][0])
+        if want == 'ValueError' and status != 'ValueError':
+            return {'kind': 'documented-rejection-missing', 'op': op, 'status': status, 'expected': want,
+                    'durations': case['input']['args'][0], 'total_times': [nsio.f2t(x.total_time) for x in ps]}
     return None
 
 
@@ -850,6 +893,27 @@ def gen_case(rng, op=None):
                     durs = [max(0, s['total'] - T) for s in seqs]
                 else:                             # QuantizationStatusError from the shift of a later piece
                     seqs = seqs + [_quantized(rng, _wfdesc(rng, max_notes=3, max_events=1))]
+        if op == 'concatenate' and rng.random() < 0.3:
+            # explicit durations of every kind at every position: exact 0 as int and as float, too short but not
+            # zero, equal, longer — for NON-EMPTY pieces, the piece after the special one ending earlier
+            k = rng.randint(1, 3)
+            pos = rng.randrange(k)
+            seqs = []
+            for i in range(k):
+                x = _wfdesc(rng, max_notes=5, max_events=2, hi_quarters=(24 if i == pos else 6))
+                if not x['notes']:
+                    e = rng.randint(1, 24 if i == pos else 6) * T
+                    x['notes'] = [[60, 80, 0, e, 0, 0, 0, 0, 0, 0]]
+                    x['total'] = max(x['total'], e)
+                if i == pos:
+                    x['total'] += 8 * T            # longer than whatever follows
+                seqs.append(x)
+            durs = [s['total'] + rng.choice([0, 0, T, 3 * T]) for s in seqs]
+            kind = rng.choice(['0i', '0f', 'short', 'short1', 'equal', 'longer'])
+            tot = seqs[pos]['total']
+            durs[pos] = {'0i': '0i', '0f': 0, 'short': max(1, tot - rng.randint(1, 4) * T), 'short1': tot - 1,
+                         'equal': tot, 'longer': tot + rng.randint(1, 4) * T}[kind]
+            pre = None
         if seqs and rng.random() < 0.2:
             alias = True                          # the same object several times (concatenate and merge)
         args = [durs]
@@ -965,6 +1029,14 @@ def corpus():
     out.append({'op': 'merge', 'input': {'alias': False, 'args': [None], 'seqs': [copy.deepcopy(drums), short]}})
     out.append({'op': 'concatenate', 'input': {'alias': True, 'args': [None],
                                                'seqs': [copy.deepcopy(unsorted), copy.deepcopy(unsorted)]}})
+    # an explicit duration of EXACTLY 0 (int and float) for a piece that is not empty, at the first, middle and
+    # last position, the next piece ending earlier (seeded change C11-10: truthiness test on the duration)
+    def _one(e):
+        return {'notes': [[60, 80, 0, e * T, 0, 0, 0, 0, 0, 0]], 'total': e * T, 'meta': 20 + e}
+    for tots, ds in (([20, 4], ['0i', 4 * T]), ([20, 4], [0, 4 * T]), ([8, 20, 4], [8 * T, 0, 4 * T]),
+                     ([8, 20, 4], [8 * T, '0i', 4 * T]), ([8, 20], [8 * T, 0]), ([8, 20], [8 * T, '0i']),
+                     ([20], [0]), ([20, 4], [19 * T, 4 * T]), ([20, 4], [20 * T, 4 * T]), ([20, 4], [21 * T, 0])):
+        out.append({'op': 'concatenate', 'input': {'alias': False, 'args': [ds], 'seqs': [_one(e) for e in tots]}})
     # raising paths that the random stream reaches rarely
     out.append({'op': 'repeat', 'input': {'alias': False, 'args': [4 * T, None],
                                           'seqs': [{'tempos': [[0, 120 << nsio.QPM_BITS]], 'total': 0, 'meta': 9}]}})
